@@ -18,6 +18,7 @@ import (
 
 	"google.golang.org/protobuf/proto"
 
+	"github.com/tink-crypto/tink-go/v2/aead"
 	"github.com/tink-crypto/tink-go/v2/core/registry"
 	"github.com/tink-crypto/tink-go/v2/insecurecleartextkeyset"
 	"github.com/tink-crypto/tink-go/v2/internal/protoserialization"
@@ -27,6 +28,7 @@ import (
 	"github.com/tink-crypto/tink-go/v2/verifsim/catalog"
 	"github.com/tink-crypto/tink-go/v2/verifsim/classes"
 	"github.com/tink-crypto/tink-go/v2/verifsim/core"
+	"github.com/tink-crypto/tink-go/v2/verifsim/kmsfake"
 	"github.com/tink-crypto/tink-go/v2/verifsim/simmon"
 	"github.com/tink-crypto/tink-go/v2/verifsim/simrng"
 	"github.com/tink-crypto/tink-go/v2/verifsim/simsched"
@@ -49,11 +51,12 @@ func TestMain(m *testing.M) {
 		}
 	}
 	core.DeclareFaults("preemption", "preemption-inside-tink-call", "task-finished-handover", "free-run-fallback", "blocked-on-lock-handover")
-	core.DeclareProbes("globally-sourced-randomness(semantic oracle)", "legacy-adapter", "multi-key-keyset", "handle-reads", "construct-under-schedule",
+	core.DeclareProbes("globally-sourced-randomness(semantic oracle)", "legacy-adapter", "kms-envelope-aead", "multi-key-keyset", "handle-reads", "construct-under-schedule",
 		"registry-lookup", "keygen-under-schedule", "accept-rejects-corrupted", "race-build", "monitored-handle", "monitoring-events-compared", "round-robin-plan", "site-targeted-plan", "reparse-construct-under-schedule", "prehash-signing-path")
 	// "keygen-not-a-function-of-the-reader(semantic oracle)" is not declared: it cannot occur while GODEBUG
 	// cryptocustomrand=1 holds (the orchestrator forces it) and every tink key generator reads crypto/rand.Reader
 	stubkm.Register()
+	kmsfake.Register()
 	core.Main(m, prop, "sched", map[string]string{"everything in /repo": "real (instrumented copies via -overlay: yield call before every statement, semantics unchanged)",
 		"goroutine scheduling": "stub (simsched baton, plan drawn by rapid)", "crypto/rand": "stub (simrng, one lane per task)",
 		"standard library, x/crypto, protobuf": "real, not instrumented (atomic between yield points)", "custom key manager": "stub (stubkm)"})
@@ -218,7 +221,10 @@ func runSched(t *rapid.T) {
 	arenaDirtyAt = -1
 
 	// ---- the shared object
-	scenario := rapid.SampledFrom([]string{"primitive", "primitive", "primitive", "legacy", "handle"}).Draw(t, "scenario")
+	scenario := rapid.SampledFrom([]string{"primitive", "primitive", "primitive", "primitive", "primitive", "primitive", "legacy", "legacy", "handle", "handle", "kms-envelope"}).Draw(t, "scenario")
+	if forced := os.Getenv("VSIM_SCENARIO"); forced != "" {
+		scenario = forced // targeted runs only; the registered commands never set it
+	}
 	sh := &shared{}
 	var es []catalog.Entry
 	monitored := false
@@ -226,6 +232,20 @@ func runSched(t *rapid.T) {
 	mon.SetLaneFunc(nil)
 	mon.Reset()
 	switch scenario {
+	case "kms-envelope":
+		// one KMS-envelope AEAD (remote key material: every call wraps / unwraps a fresh DEK through the KEK AEAD of
+		// tink's in-tree fake KMS and builds the DEK primitive through the registry) shared by the tasks
+		r.Probe("kms-envelope-aead")
+		sh.class = classes.AEAD
+		dek := rapid.SampledFrom([]func() *tinkpb.KeyTemplate{aead.AES128GCMKeyTemplate, aead.AES256GCMKeyTemplate, aead.AES128CTRHMACSHA256KeyTemplate,
+			aead.ChaCha20Poly1305KeyTemplate, aead.XChaCha20Poly1305KeyTemplate, aead.AES256GCMSIVKeyTemplate}).Draw(t, "kmsDek")()
+		pfx := rapid.SampledFrom([]tinkpb.OutputPrefixType{tinkpb.OutputPrefixType_RAW, tinkpb.OutputPrefixType_TINK}).Draw(t, "kmsPrefix")
+		h, err := kmsfake.Handle(dek, 0x0a0b0c0e, pfx)
+		if err != nil {
+			t.Fatalf("harness: KMS-envelope keyset: %v", err)
+		}
+		sh.h = h
+		sh.entry = catalog.Entry{Name: "aead/kmsenvelope/" + strings.TrimPrefix(dek.TypeUrl, "type.googleapis.com/google.crypto.tink."), KeyType: "kmsenvelope"}
 	case "legacy":
 		r.Probe("legacy-adapter")
 		sh.class = rapid.SampledFrom([]string{classes.MAC, classes.AEAD, classes.DAEAD, classes.Signature, classes.Hybrid}).Draw(t, "stubClass")
@@ -289,12 +309,14 @@ func runSched(t *rapid.T) {
 	// pre-produced valid outputs for accept operations; also find out whether the producer is a function of its RNG lane
 	for i := 0; i < 2; i++ {
 		msg, aux := slice(t, fmt.Sprintf("pre%d.msg", i)), slice(t, fmt.Sprintf("pre%d.aux", i))
-		g.SetOffset(lane, 1000)
+		// each pre-produced output gets its own stretch of the RNG lane (two outputs made from the same random bytes would
+		// share their nonce — or, with a KMS-envelope AEAD, their wrapped DEK — which no two real outputs do)
+		g.SetOffset(lane, 1000+uint64(i)*(1<<20))
 		out, err := sh.prod.Produce(msg, aux)
 		if err != nil {
 			t.Fatalf("harness: %s: produce failed: %v", sh.entry.Name, err)
 		}
-		g.SetOffset(lane, 1000)
+		g.SetOffset(lane, 1000+uint64(i)*(1<<20))
 		out2, _ := sh.prod.Produce(msg, aux)
 		if !bytes.Equal(out, out2) {
 			sh.semantic = true
@@ -326,6 +348,7 @@ func runSched(t *rapid.T) {
 	expected := make([][]result, nTasks)
 	expectedEvents := make([][]simmon.Event, nTasks)
 	firsts := make([][]uint32, nTasks) // per task: yield indices at which a site is reached for the first time, ascending
+	lockAts := make([][]uint32, nTasks) // per task: yield indices of its lock acquisitions when run alone
 	var seqYields uint64
 	mon.SetLaneFunc(func() int { return lane })
 	for i := range tasks {
@@ -350,6 +373,7 @@ func runSched(t *rapid.T) {
 			}
 		}
 		sort.Slice(firsts[i], func(a, b int) bool { return firsts[i][a] < firsts[i][b] })
+		lockAts[i] = append([]uint32{}, s1.LockAt...)
 		r.Count("distinct-sites-per-task", int64(len(firsts[i])))
 		expectedEvents[i] = append([]simmon.Event{}, mon.Events[i]...)
 		if len(s1.Panics) > 0 {
@@ -399,6 +423,17 @@ func runSched(t *rapid.T) {
 		at := uint32(0)
 		if len(firsts[a]) > 0 {
 			at = firsts[a][rapid.IntRange(0, len(firsts[a])-1).Draw(t, "parkSite")] + uint32(rapid.IntRange(0, 2).Draw(t, "parkDelta"))
+		}
+		if len(lockAts[a]) > 0 && rapid.Bool().Draw(t, "parkAroundLock") {
+			// where the task's critical sections begin is where check-then-act across two of them, or a critical section
+			// that is too small, shows: park the task just before a lock acquisition or within the next few statements
+			// after it (the section and the statements that follow it in the caller)
+			l := int64(lockAts[a][rapid.IntRange(0, len(lockAts[a])-1).Draw(t, "parkLock")]) + int64(rapid.IntRange(-1, 8).Draw(t, "parkLockDelta"))
+			if l < 0 {
+				l = 0
+			}
+			at = uint32(l)
+			r.Probe("parked-around-a-lock-acquisition")
 		}
 		plan[0] = simsched.Step{RunFor: at, SwitchTo: uint8(a)}
 		if nSteps > 1 {
